@@ -381,6 +381,15 @@ func main() {
 	var cases []P
 	th := r.Thorough()
 	oprfKeys := mc.Pick(r, []int{0, 3}, []int{0, 1, 3, 4, 5})
+	// keys whose truncated id (the only part a request carries) is 00 and ff, found by search
+	extraKeys := map[int][]int{}
+	for _, t := range []int{1, 5} {
+		su := oprf.SuiteP384
+		if t == 5 {
+			su = oprf.SuiteRistretto255
+		}
+		extraKeys[t] = []int{px.FindOPRFKey(su, 0x00), px.FindOPRFKey(su, 0xff)}
+	}
 	rsaKeysIdx := mc.Pick(r, []int{0, 1}, []int{0, 1, 2, 3})
 	lens := mc.Pick(r, []int{0, 1, 32, 64, 255, 65535}, px.ChallengeLens)
 	nonces := mc.Pick(r, []int{0, 2}, []int{0, 1, 2})
@@ -390,6 +399,8 @@ func main() {
 		keys := oprfKeys
 		if t == 2 {
 			keys = rsaKeysIdx
+		} else {
+			keys = append(append([]int{}, oprfKeys...), extraKeys[1]...)
 		}
 		for _, k := range keys {
 			for _, cl := range lens {
@@ -413,7 +424,7 @@ func main() {
 	} else {
 		batches = append(batches, 511, 512)
 	}
-	for _, k := range oprfKeys {
+	for _, k := range append(append([]int{}, oprfKeys...), extraKeys[5]...) {
 		for _, b := range batches {
 			ls := lens
 			if b > 8 {
